@@ -43,6 +43,11 @@ var solvers = []solverSpec{
 		// the older simplex core: decides several store-chain goals at once on which the default core times out
 		return []string{"z3-new", fmt.Sprintf("-T:%d", t), "smt.arith.solver=2", f}
 	}},
+	{"z3-new/noauto", func(f string, t int) []string {
+		// without z3's automatic configuration (no logic-specific tactic selection): pure E-matching goals
+		// with nested array reads are often decided at once this way
+		return []string{"z3-new", fmt.Sprintf("-T:%d", t), "smt.auto_config=false", f}
+	}},
 	{"z3", func(f string, t int) []string { return []string{"z3", fmt.Sprintf("-T:%d", t), f} }},
 	{"cvc5", func(f string, t int) []string {
 		return []string{"cvc5", "--lang=smt2", fmt.Sprintf("--tlimit=%d", t*1000), "--produce-models", f}
